@@ -49,6 +49,9 @@ DOCUMENTED = {"ndef": {"ndef", "none"}, "write": {"unit"}, "present": {"true", "
 FOOTER = {"ulc": 4, "ntag203": 2, "ntag213": 5}
 PASSWORD = b"0123456789abcdef"
 NEWDATA = b"\xd1\x01\x03\x54\x02\x65\x6e"
+BIGDATA = bytes((5 * i + 3) & 255 for i in range(600))      # Type 4: UPDATE BINARY commands of two ISO-DEP blocks
+L3ONLY = {"t4chain"}      # chained ISO-DEP commands: oracle only, the block protocol model is C12's
+_big = [False]
 
 _current = [None]
 _hooked = [False]
@@ -73,7 +76,7 @@ def hook_errors():
 def family(kind):
     return {"t2": "t2", "t2big": "t2", "ul": "t2", "ulc": "t2", "ntag203": "t2", "ntag213": "t2",
             "t3": "t3", "t3std": "t3", "lite": "t3", "t1s": "t1", "t1d": "t1", "topaz": "t1",
-            "topaz512": "t1", "t4": "t4", "t4slow": "t4"}[kind]
+            "topaz512": "t1", "t4": "t4", "t4slow": "t4", "t4chain": "t4"}[kind]
 
 
 def instrument(kind, air, tag):
@@ -121,7 +124,7 @@ def perform(tag, op):
     if op == "ndef":
         return tag.ndef
     if op == "write":
-        tag.ndef.octets = NEWDATA
+        tag.ndef.octets = BIGDATA if _big[0] else NEWDATA
         return "unit"
     if op == "present":
         return tag.is_present
@@ -140,11 +143,43 @@ def perform(tag, op):
     raise ValueError(op)
 
 
+TIMED = ["nfc.tag", "nfc.tag.tt1", "nfc.tag.tt2", "nfc.tag.tt3", "nfc.tag.tt4",
+         "nfc.tag.tt1_broadcom", "nfc.tag.tt2_nxp", "nfc.tag.tt3_sony"]
+
+
+@contextlib.contextmanager
+def virtual_time(clock):
+    """the tag modules see `clock` instead of the time module: elapsed-time dependent behaviour of
+    the retry paths runs deterministically, a failed exchange costs its timeout"""
+    import importlib
+    saved = []
+    for name in TIMED:
+        mod = importlib.import_module(name)
+        saved.append((mod, mod.__dict__.get("time", None), "time" in mod.__dict__))
+        mod.time = clock
+    try:
+        yield clock
+    finally:
+        for mod, old, had in saved:
+            if had:
+                mod.time = old
+            else:
+                del mod.time
+
+
 def execute(kind, op, script, prepare=None):
     """run one operation of a fresh tag under `script` -> dict"""
     from sims import retry_sims as rs
+    with virtual_time(rs.Clock()) as clock:
+        return _execute(kind, op, script, prepare, clock)
+
+
+def _execute(kind, op, script, prepare, clock):
+    from sims import retry_sims as rs
     hook_errors()
     sim, air, tag = rs.build(kind)
+    air.clock = clock
+    _big[0] = kind in L3ONLY
     if prepare:
         prepare(sim)
     instrument(kind, air, tag)
@@ -386,11 +421,21 @@ def scripts_for(ck, plan, rng):
                 if l in "TXP" and b in (2, 4) and not ck.thorough:
                     continue
                 out.append("a" * p + l * b)
+        # two bursts within the budget, two answered exchanges apart (same or neighbouring primitive call /
+        # ISO-DEP block): the retry budget is per call and per block
+        out += ["a" * p + "ttaatt", "a" * p + "xTaaXt", "a" * p + "taat"]
         if fam == "t3":
             # cut answers; commands without status flags (request response / system code, search service)
             # parse the remainder themselves (C08), only the header cuts are injected there
             for l in ("01" if toks[p] in NOSTATUS else "0123"):
                 out.append("a" * p + l)
+    # trains of short bursts (each within the budget, separated by answers): all of them must be absorbed
+    for _ in range(40 if ck.thorough else 10):
+        sc, at = "", 0
+        for _ in range(rng.randrange(2, 6)):
+            gap = rng.randrange(2, max(3, min(n, 12)))
+            sc += "a" * gap + "".join(rng.choice("txTX") for _ in range(rng.randrange(1, 3)))
+        out.append(sc[2:] if rng.random() < 0.3 else sc)
     # mixed and scattered scripts
     for _ in range(30 if ck.thorough else 6):
         ln = rng.randrange(1, min(n + 6, 40))
@@ -443,7 +488,7 @@ def oracle(ck, plan, script, r):
     else:
         if out[3:] not in DOCUMENTED[op]:
             ck.fail("undocumented-result", what + "returns " + out[3:], replay)
-    for inv in r["invs"]:
+    for inv in ([] if kind in L3ONLY else r["invs"]):
         ex = [e for e in inv if e[0] != "!"]
         if not ex:
             continue
@@ -463,7 +508,7 @@ def oracle(ck, plan, script, r):
             ck.fail("primitive-mixed-commands", what + "one primitive call sent different commands %s" % ex, replay)
     # a state-changing command that was answered is not sent again by the next call of the primitive
     prev = None
-    for inv, raw in zip(r["invs"], r["invraw"]):
+    for inv, raw in ([] if kind in L3ONLY else zip(r["invs"], r["invraw"])):
         ex = [e for e in inv if e[0] != "!"]
         if not ex:
             continue
@@ -471,6 +516,16 @@ def oracle(ck, plan, script, r):
         if prev is not None and prev == raw and (tok[0] in "wW" or tok.startswith("up")):
             ck.fail("write-repeated-after-answer", what + "write command %s was answered and is sent again" % tok, replay)
         prev = raw if ex[-1][1] == "a" and not any(e[0] == "!" for e in inv) else None
+    # a train of bursts, each within the budget and separated by two answers, is invisible
+    import re
+    runs = re.findall(r"[^a]+", script)
+    base_toks = [e[0] for inv in plan.base["invs"] for e in inv if e[0] != "!"]
+    lim = min(2, r["nret"]) if fam == "t4" else 2
+    if (len(runs) >= 2 and set(script) <= set("atxTX") and all(len(x) <= lim for x in runs)
+            and not re.search(r"[^a]a[^a]", script) and "s2" not in base_toks and not (fam == "t4" and op == "present")):
+        if out != plan.base["out"] or r["mem"] != plan.base["mem"]:
+            ck.fail("transient-error-not-absorbed", what + "bursts within the retry budget change the result to %s (fault-free: %s)"
+                    % (out, plan.base["out"]), replay)
     # a burst within the budget is invisible
     body = script.lstrip("a")
     absorb = min(2, r["nret"]) if fam == "t4" and op != "present" else 2
@@ -512,6 +567,9 @@ def run(ck):
             for script in scripts_for(ck, plan, rng):
                 r = execute(kind, op, script)
                 oracle(ck, plan, script, r)
+                if kind in L3ONLY:
+                    ck.case((kind, op, script), bool(script.strip("a")), "oracle-only:%s:%s" % (kind, op))
+                    continue
                 reqs.append(plan.request(cfg, script))
                 reals.append("%s # %s # %s" % (r["out"], show_log(r["invs"]), ",".join(applied_tokens(kind, r)) or "-"))
                 meta.append((kind, op, script))
@@ -551,7 +609,8 @@ def run(ck):
                     air = rs.Air(sim)
                     air.arm("a" * p + l * b)
                     try:
-                        t = nfc.tag.activate(air, sim.target)
+                        with virtual_time(air.clock):
+                            t = nfc.tag.activate(air, sim.target)
                         res = "tag" if isinstance(t, nfc.tag.Tag) else classify(t)
                     except Exception as e:  # noqa
                         res = "exc " + exc_name(e)
